@@ -49,7 +49,11 @@ from .common import HarnessError, run, write
 
 ALL_FEATURES = ("weak", "common", "hidden", "protected", "fnptr", "tls", "tls_thread", "ifunc", "strings",
                 "ctors", "custom_sec", "cxx", "data_ptrs", "packed", "weak_undef", "bss", "align", "local",
-                "asm", "copyrel")
+                "asm", "copyrel", "tlsdesc")
+# every probe kind (first token of a transcript line) the generator can emit
+KNOWN_KINDS = frozenset("""call data addr addr_code addr_deref fnptr fnptr_code local hidden protected weak common tls_gd tls_ld tls_ie
+tls_le tls_def tls_thread ifunc str ctor dtor sect packed weak_undef bss align asm asm_tls_ie asm_tls_gd asm_tls_ld asm_tls_le
+asm_tls_desc cxx_inline cxx_exc cxx_virt end""".split())
 CODE_MODELS = ("nopic", "pie", "pic")
 PIC_FLAGS = {"nopic": ("-fno-pic", "-fno-pie"), "pie": ("-fpie",), "pic": ("-fPIC",)}
 KIND_ARGS = {"static": ["-static", "-no-pie"], "static-pie": ["-static-pie"], "pie": ["-pie"], "dyn": ["-no-pie"]}
@@ -295,7 +299,7 @@ def gen_program(r, features=None, n_units=None, want_lib=None):
             u.cflags += ["-ffunction-sections", "-fdata-sections"]
         if r.random() < 0.25:
             u.pic_only_flags.append("-fno-plt")
-        if "tls" in fs and r.random() < 0.25:
+        if "tls" in fs and "tlsdesc" in fs and r.random() < 0.35:
             u.cflags.append("-mtls-dialect=gnu2")
         if r.random() < 0.2:
             u.cflags.append("-fno-asynchronous-unwind-tables")
@@ -490,6 +494,8 @@ def gen_program(r, features=None, n_units=None, want_lib=None):
             for j in range(r.randint(0, 3)):
                 t = tag()
                 vis = r.choice(["default", "default", "static", "hidden"])
+                if vis == "hidden" and "hidden" not in fs:
+                    vis = "default"      # no hidden-visibility symbol of any type without the feature
                 zero = r.random() < 0.35
                 al = r.choice([0, 0, 0, 16, 64, 256]) if r.random() < 0.5 else 0
                 ctype = r.choice(["int", "long", "char", "short"])
@@ -563,6 +569,8 @@ def gen_program(r, features=None, n_units=None, want_lib=None):
             if r.random() < 0.6:
                 ta, tb = tag(), tag()
                 vis = r.choice(["default", "default", "hidden", "static"])
+                if vis == "hidden" and "hidden" not in fs:
+                    vis = "default"
                 pickb = r.random() < 0.5
                 name = f"{u.name}_if"
                 u.defs.append(f"static int {name}_a(int x) {{ return {ta} + x; }}")
